@@ -1,5 +1,9 @@
 // One line per additional op module (kept in a separate file so that adding a property touches only this list).
 // mod ops_cXX;   and a line in dispatch_more.
-fn dispatch_more(_op: &str, _args: &[String]) -> Option<String> {
+mod ops_c20;
+mod ops_c13;
+fn dispatch_more(op: &str, args: &[String]) -> Option<String> {
+    if let Some(r) = ops_c20::run(op, args) { return Some(r); }
+    if let Some(r) = ops_c13::run(op, args) { return Some(r); }
     None
 }
